@@ -83,7 +83,12 @@ func (c *Ctx) checkStoreWhatYouWereGiven() {
 				if !isSetCbor(calleeName(ci.Common())) {
 					continue
 				}
-				if rootValue(ci.Common().Args[0], 0) == fn.Params[0] || strings.HasPrefix(desc(ci.Common().Args[0]), "alloc:**") {
+				root := rootValue(ci.Common().Args[0], 0)
+				spill := false
+				if al, isAl := root.(*ssa.Alloc); isAl && singleStore(al) == ssa.Value(fn.Params[0]) {
+					spill = true
+				}
+				if root == fn.Params[0] || spill || strings.HasPrefix(desc(ci.Common().Args[0]), "alloc:**") {
 					own = append(own, ci)
 				}
 			}
